@@ -169,7 +169,31 @@ def stream_scenarios(rng, n):
             side = "T" if rng.chance(1, 2) else "S"
             live = liveT if side == "T" else liveS
             cnt = nT if side == "T" else nS
-            if r < 60:
+            if r < 12 and k % 2 == 1:
+                # reconnect whose receiver cannot open its stream to the local server: the pair stays up with its sender
+                # only (the previous incarnation is broken first or evicted by the attempt), until it is broken later
+                if live is not None and rng.chance(1, 2):
+                    ev += ["B%s %d" % (side, live), "W"]
+                ev += ["F" + side, "O" + side]
+                if side == "T":
+                    liveT, nT = cnt, cnt + 1
+                else:
+                    liveS, nS = cnt, cnt + 1
+                ev.append("W")
+                # nothing flows while one receiver is missing; the pair is then broken, or replaced with overlap
+                if rng.chance(1, 2):
+                    ev += ["B%s %d" % (side, cnt)]
+                    if side == "T":
+                        liveT = None
+                    else:
+                        liveS = None
+                else:
+                    ev += ["O" + side, "B%s %d" % (side, cnt)]
+                    if side == "T":
+                        liveT, nT = cnt + 1, cnt + 2
+                    else:
+                        liveS, nS = cnt + 1, cnt + 2
+            elif r < 60:
                 # reconnect with overlap
                 if live is None:
                     ev.append("O" + side)
@@ -222,12 +246,20 @@ def stream_monitor(ev, lines):
         elif cur is not None:
             cur.append(l)
     bi = 0
+    recvT = recvS = True     # does the live pair have a receiver (its stream to the local server could be opened)
+    failT = failS = False
     for e in ev[1:]:
         f = e.split()
-        if f[0] == "OT":
+        if f[0] == "FT":
+            failT = True
+        elif f[0] == "FS":
+            failS = True
+        elif f[0] == "OT":
             liveT, nT = nT, nT + 1
+            recvT, failT = not failT, False
         elif f[0] == "OS":
             liveS, nS = nS, nS + 1
+            recvS, failS = not failS, False
         elif f[0] == "BT":
             if liveT == int(f[1]):
                 liveT = None
@@ -243,10 +275,12 @@ def stream_monitor(ev, lines):
             if f[0] == "W":
                 d = dict(x.split("=") for x in b[0].split()[1:])
                 want = (liveT is not None) + (liveS is not None)
+                wantr = (liveT is not None and recvT) + (liveS is not None and recvS)
                 for k in ("local", "send", "ack", "cancel", "active"):
-                    if int(d[k]) != want:
-                        bad.append("after settling, %d live stream pair(s) but %s registry has %s entries: %s" % (want, k, d[k], b[0]))
-                if d["view"] != "%d/%d/%d" % (want, want, want):
+                    w_ = want if k in ("local", "send") else wantr
+                    if int(d[k]) != w_:
+                        bad.append("after settling, %d live stream pair(s), %d with a receiver, but %s registry has %s entries: %s" % (want, wantr, k, d[k], b[0]))
+                if d["view"] != "%d/%d/%d" % (want, want, wantr):
                     bad.append("debug view disagrees: " + b[0])
                 if d["aliveT"] != ("" if liveT is None else str(liveT)) or d["aliveS"] != ("" if liveS is None else str(liveS)):
                     bad.append("handlers still running %s/%s, live incarnations %s/%s" % (d["aliveT"], d["aliveS"], liveT, liveS))
@@ -346,7 +380,8 @@ def check(tier, seed):
     smon = []
     if err:
         ck.obligation("whole-stream run", False, err[:1500])
-        ck.violation({"kind": "harness", "log": err, "broken": "C08 stream harness"}, "harness failed: " + err[:300], no_input=True)
+        if not V.crash_violation(ck, err, os.path.join(V.WORK, "c08s_main.out"), sscs, lambda h: run_streams([h], "crash")[0], "whole-stream reconnect harness"):
+            ck.violation({"kind": "harness", "log": err, "broken": "C08 stream harness"}, "harness failed: " + err[:300], no_input=True)
         return ck.finish()
     for ev in sscs:
         b = stream_monitor(ev, sres.get(ev[0].split()[1], []))
@@ -404,6 +439,10 @@ def replay(data):
         bad = [x for s in outs(b) for x in monitor_state(s, exp)]
         print("MONITOR", bad)
         return 1 if bad else 0
+    if data.get("kind") == "crash":
+        err, res = run_streams([data["history"]], "replay")
+        print(err or "the process survives this scenario on the current tree")
+        return 1 if err else 0
     if data.get("kind") == "streams":
         bad = []
         for _ in range(5):
